@@ -16,6 +16,8 @@ ANCHORS = [
     "resolver_service.py:get_fastapi_app", "resolver_service.py:get_flask_blueprint.<locals>.resolve",
     "resolver_service.py:get_fastapi_router.<locals>.resolve",
 ]
+# public functions the driver does not call itself (the library reaches them internally today): missing => reported, not inconclusive
+SOFT_ANCHORS = ['resolver_service.py:get_flask_blueprint', 'resolver_service.py:get_fastapi_router']
 DECIDING = ["resolver:flask", "resolver:fastapi", "resolver:frameworks-agree"]
 REPO_TESTS = False
 RULE = (
